@@ -71,6 +71,7 @@ func c15Gen(tier string, emit func(c15Case)) {
 		for _, st := range []string{"map", "builder"} {
 			emit(c15Case{Kind: "build", Template: t, Style: st, Reg: "group"})
 			emit(c15Case{Kind: "build", Template: t, Style: st, Reg: "named-later"})
+			emit(c15Case{Kind: "build", Template: t, Style: st, Reg: "root-group"})
 			// a POST route with the same literal skeleton and variable names but other variable regexes is registered first
 			emit(c15Case{Kind: "build", Template: t, Style: st, Reg: "twin-before"})
 			// a caching router that has already answered "no route" for every URL it will build, before the route exists
@@ -272,6 +273,9 @@ func c15Run(c c15Case, st *fw.Stats) []fw.Viol {
 		rt := rux.NewNamedRoute("target", c.Template, th, "GET")
 		_ = try(func() { rt.ToURL() }) // asking an unattached route for its URL must not freeze a stale template
 		r.Group("/api", func() { r.AddRoute(rt) })
+	case "root-group":
+		// registered inside a group mounted at the site root
+		r.Group("/", func() { r.AddNamed("target", c.Template, th, "GET") })
 	case "named-later":
 		r.GET(c.Template, th).NamedTo("target", r)
 	case "twin-before":
@@ -510,7 +514,7 @@ func c15Run(c c15Case, st *fw.Stats) []fw.Viol {
 var c15Spec = fw.Spec[c15Case]{
 	ID:    "C15",
 	Level: "model_checking",
-	Rule: "complete product: 24 named templates (static - also with '#', '?', '%25', ';', '&' and blanks in the literal text -, leading variable next to dynamic decoys whose literal first segment is one of the values, default / custom / global variable regexes, 1-3 variables, literal prefix and suffix around a variable, '.' in the literal text - also more dots than the shortest values have bytes) x ALL value tuples over 19 values (spaces, non-ASCII, %, ?, #, ;, encoded slash, dots, slash where the regex admits it) that satisfy the variables' regexes x 4 argument styles (M map, key/value pairs, BuildRequestURL builder, one builder object reused across routes) x 9 registrations (on a StrictLastSlash router with the template ending in a slash next to its slash-less sibling; on a caching router next to a second named route of the same template that serves HEAD, every URL asked with HEAD first; followed by a later route that spells the template's first variable as a literal equal to one of the values; on a caching router with two cache slots, every URL built and requested in two passes; on a caching router that answered 'no route' for every URL before the route existed; top-level AddNamed; NewNamedRoute + ToURL() + AddRoute inside a group; named after registration with NamedTo; after a POST route with the same skeleton and variable names but other variable regexes) x 4-6 sets of extra query arguments (also keys spelled like a variable of the route); " +
+	Rule: "complete product: 24 named templates (static - also with '#', '?', '%25', ';', '&' and blanks in the literal text -, leading variable next to dynamic decoys whose literal first segment is one of the values, default / custom / global variable regexes, 1-3 variables, literal prefix and suffix around a variable, '.' in the literal text - also more dots than the shortest values have bytes) x ALL value tuples over 19 values (spaces, non-ASCII, %, ?, #, ;, encoded slash, dots, slash where the regex admits it) that satisfy the variables' regexes x 4 argument styles (M map, key/value pairs, BuildRequestURL builder, one builder object reused across routes) x 10 registrations (inside a group mounted at the site root; on a StrictLastSlash router with the template ending in a slash next to its slash-less sibling; on a caching router next to a second named route of the same template that serves HEAD, every URL asked with HEAD first; followed by a later route that spells the template's first variable as a literal equal to one of the values; on a caching router with two cache slots, every URL built and requested in two passes; on a caching router that answered 'no route' for every URL before the route existed; top-level AddNamed; NewNamedRoute + ToURL() + AddRoute inside a group; named after registration with NamedTo; after a POST route with the same skeleton and variable names but other variable regexes) x 4-6 sets of extra query arguments (also keys spelled like a variable of the route); " +
 		"each built URL is matched (Match on u.Path) and requested (ServeHTTP on a request parsed from u.String()); naming: all sequences of <=3 (thorough 4) naming operations over 2 names x {AddNamed, NewNamedRoute+AddRoute, route.NamedTo on a new route, NamedTo renaming the first / the previous route}; non-trivial = a template with variables / a sequence of >=2 naming operations",
 	Assume: []string{"values containing '{' or '}' are excluded: Build substitutes in Go map order, which the harness cannot own", "routes without optional parts, as the statement says", "value tuples that spell a path which is not in normal form (white space or '/' at the very end) are skipped: path normalisation (C11) ignores those characters by design"},
 	Bounds: func(tier string) map[string]any {
